@@ -6,7 +6,7 @@ from ..core.common import Collector, run_shards
 
 PROPERTY = "C13"
 LEVEL = "exploration"
-RULE = ("full factorial: centre on/off for 1..4 parameters over the box list, and every level-count vector in {1..4}^{1..4}; "
+RULE = ("full factorial: centre on/off for 1..4 parameters over the box list, and every level-count vector in {1..4}^{1..4} plus shapes with up to 300 levels per factor and up to 10 factors; "
         "Plackett-Burman: 1..23 factors; Box-Behnken: 3..8 factors; GSD: every level vector in {2..5}^{2..4} x reduction 2..5 x "
         "(n=1 | n=r complementary designs via build_gsd; the generator class for n=1). Oracle: Cartesian product / orthogonality and "
         "balance / pair-corner structure / duplicate-free subset, pairwise disjoint, union = full factorial. A documented refusal "
@@ -195,6 +195,13 @@ def _shard(shard, col: Collector):
         for nf in (1, 2, 3, 4):
             for shape in itertools.product((1, 2, 3, 4), repeat=nf):
                 rec("ffl", {"shape": shape}, check_fullfact_levels(shape), nf > 1)
+        # beyond small: factors with many levels, many two-level factors
+        for shape in ((127, 2), (128, 2), (129, 3), (2, 200), (260,), (300, 2), (2,) * 8, (2,) * 10, (3,) * 6, (5, 6, 7), (2, 3, 4, 5, 2)):
+            rec("ffl", {"shape": shape}, check_fullfact_levels(shape), True)
+        for n in (5, 6, 8):
+            for center in (False, True):
+                if not (center and n == 8):
+                    rec("ff", {"n": n, "center": center, "shift": 1}, check_fullfact(n, center, 1), True)
         col.sample({"kind": "full-factorial-levels", "shape": [2, 4, 3]}, 1)
     elif kind == "pb":
         for n in range(1, 24):
